@@ -34,7 +34,7 @@ var Check = &vrt.Check{
 	Plan:          plan,
 	Run:           run,
 	Exhaustive:    func(string) bool { return false },
-	MinNontrivial: 40,
+	MinNontrivial: 100,
 	MemLimitMB:    4096,
 	Extra: func(tier string) map[string]any {
 		return map[string]any{"links": []string{"in-memory pipe with PRNG read segmentation (verif hook)", "loopback TCP (OpenPortTCP) with sleep-separated partial writes"}}
@@ -55,9 +55,9 @@ func plan(seed int64, tier string) []vrt.Case {
 	for _, f := range fixedScenarios() {
 		add(f.id, f.sc)
 	}
-	nStream, nOdd := 84, 12
+	nStream, nOdd := 240, 40
 	if tier == "thorough" {
-		nStream, nOdd = 5600, 340
+		nStream, nOdd = 11200, 700
 	}
 	for i := 0; i < nStream; i++ {
 		add(fmt.Sprintf("stream-%04d", i), randomStream(seed, i))
@@ -213,6 +213,23 @@ func fixedScenarios() []fixed {
 		sc.Bursts = []burst{{Frames: 20, MinSz: 1, MaxSz: 100}}
 		sc.Writes = []int{100, 2000, 1, 300, 50, 700, 8000, 20}
 		sc.Writes2 = []int{64, 1500, 3, 900, 10, 4000, 7, 250}
+		sc.End = "app-close"
+	})
+	mk("two-connections-concurrent-writers-port-1", func(sc *scenario) {
+		sc.Seg, sc.Port = "hostile", 1
+		sc.Dual, sc.DualPct = true, 20
+		sc.Bursts = []burst{{Frames: 5, MinSz: 1, MaxSz: 100}}
+		sc.Writes = []int{5, 5, 5, 5, 5, 5, 5, 5, 5, 5, 5, 5}
+		sc.Writes2 = []int{700, 700, 700, 700, 700, 700, 700, 700, 700, 700}
+		sc.MaxFrame, sc.TTLMax = 7, 1
+	})
+	mk("two-connections-concurrent-writers-accept", func(sc *scenario) {
+		sc.Seg, sc.Mode = "whole", "accept"
+		sc.Dual, sc.DualPct = true, 20
+		sc.Bursts = []burst{{Frames: 5, MinSz: 1, MaxSz: 100}}
+		sc.Writes = []int{3000, 1, 3000, 1, 3000, 1, 3000, 1, 3000, 1}
+		sc.Writes2 = []int{1, 2000, 1, 2000, 1, 2000, 1, 2000, 1, 2000}
+		sc.MaxFrame, sc.TTLMax = 7, 1
 		sc.End = "app-close"
 	})
 	mk("two-connections-concurrent-writers-tcp", func(sc *scenario) {
